@@ -22,7 +22,7 @@ for d in sorted(glob.glob(os.path.join(ROOT, "seeded", "C*-*"))):
     if "suite" not in res and os.path.exists(os.path.join(d, "verify.json")):
         res["suite"] = {"lines": json.load(open(os.path.join(d, "verify.json"))).get("suite_with_change", [])}
     suite = "; ".join(l.split("test result: ")[1].split(";")[0] + ";" + l.split(";")[1] for l in res.get("suite", {}).get("lines", []) if "passed" in l and not l.startswith("test result: ok. 0 passed"))
-    rows.append((name, (meta.get("summary") or "").replace("\n", " ").replace("|", "/")[:230], ", ".join(meta.get("files", []))[:60], suite, ", ".join(caught), ", ".join(missed), ", ".join(broken)))
+    rows.append((name, (("[" + meta["status"].split(":")[0].upper() + "] ") if meta.get("status") else "") + (meta.get("summary") or "").replace("\n", " ").replace("|", "/")[:230], ", ".join(meta.get("files", []))[:60], suite, ", ".join(caught), ", ".join(missed), ", ".join(broken)))
 with open(os.path.join(ROOT, "seeded", "RESULTS.md"), "w") as f:
     f.write("# Seeded changes and the checks that catch them\n\n"
             "Each change compiles and passes the unedited 433-test suite (column *suite*, measured with the change applied to /repo).\n"
